@@ -448,7 +448,7 @@ pub fn c09_block(b: usize, sink: &mut Sink, judge: &Judge) {
         let mut rng = Rng::from_parts(ctx.seed, &[99, k as u64]);
         let n = if ctx.leg.slow() { 1 } else if thorough(&ctx) { 40 } else { 4 };
         for i in 0..n {
-            let big = if ctx.leg.slow() { 300 } else { *rng.pick(&[1000u32, 70_000, 200_000]) };
+            let big = if ctx.leg.slow() { 300 } else { *rng.pick(&[1000u32, 70_000, 200_000, 32_767, 32_768, 32_769, 65_535, 65_536, 65_537, 98_304]) };
             let mut ops = vec![Op::Flush, Op::PollAll, Op::WriteAll(big), Op::Flush, Op::PollAll, Op::Write(1), Op::WriteAll(rng.range(0, 5000) as u32), Op::PollOnce, Op::Flush, Op::Flush, Op::PollAll, Op::WriteAll(big / 3)];
             if i % 2 == 1 {
                 ops.rotate_left(rng.below(6) as usize);
